@@ -26,6 +26,7 @@ TInit == Init /\ l = 1
 (* several executions are concatenated in one file, separated by reset *)
 TReset ==
     /\ IsEvent("reset")
+    /\ l > 1 => obs.k = "end"
     /\ classes' = [p \in Policy |-> <<>>] /\ methods' = [p \in Policy |-> <<>>]
     /\ defs' = [p \in Policy |-> <<>>] /\ inst' = [p \in Policy |-> NotInstalled]
     /\ fresh' = [p \in Policy |-> FALSE] /\ handler' = [p \in Policy |-> "throw"]
@@ -102,6 +103,15 @@ TDied ==
     /\ obs' = [k |-> "died"]
     /\ UNCHANGED <<classes, methods, defs, inst, fresh, handler, vps, dead>>
 
+(* end of one execution (appended by the parent of the executing child):   *)
+(* an aborting outcome must have been followed by the death of the child   *)
+TEnd ==
+    /\ IsEvent("end")
+    /\ dead => obs.k = "died"
+    /\ obs' = [k |-> "end"]
+    /\ dead' = TRUE          \* nothing may follow but a reset
+    /\ UNCHANGED <<classes, methods, defs, inst, fresh, handler, vps>>
+
 (* what every definition's next refers to: rows [d, o] *)
 TNext ==
     /\ IsEvent("next")
@@ -114,7 +124,7 @@ TNext ==
 
 TNextStep ==
     \/ TReset \/ TClass \/ TUnclass \/ TMethod \/ TUnmethod \/ TDef \/ TUndef \/ THandler
-    \/ TUpdate \/ TTable \/ TCTable \/ TResolve \/ TCall \/ TDied \/ TNext
+    \/ TUpdate \/ TTable \/ TCTable \/ TResolve \/ TCall \/ TDied \/ TNext \/ TEnd
 
 TSpec == TInit /\ [][TNextStep]_tvars
 
